@@ -75,6 +75,13 @@ func genScript(r *lib.Rng, tier string) *Case {
 	c.Ops = append(c.Ops, root)
 	units := []int{0}
 	next := 1
+	// units whose manager holds a slice of the caller (raw units and their aliases): unit -> len
+	rawLen := map[int]int{}
+	var rawUnits []int
+	if root.Op == "raw" {
+		rawLen[0] = len(root.Hs)
+		rawUnits = append(rawUnits, 0)
+	}
 	for len(c.Ops) < nOps {
 		switch x := r.Intn(10); {
 		case x < 4 && len(units) < 9: // a new unit derived from an existing one
@@ -96,6 +103,29 @@ func genScript(r *lib.Rng, tier string) *Case {
 			l := r.Range(0, 4)
 			c.Ops = append(c.Ops, SOp{Op: "raw", New: next, Inf: 100 + next, Off: r.Intn(3),
 				Hs: pickSome(r, nH, l, l), Spare: r.Intn(5)})
+			rawLen[next] = l
+			rawUnits = append(rawUnits, next)
+			units = append(units, next)
+			next++
+		case x == 6 && len(units) < 9 && len(rawUnits) > 0:
+			// the caller passes an overlapping part of a slice it already passed: both managers
+			// share one backing array, the new one's spare capacity covers elements of the old
+			src := rawUnits[r.Intn(len(rawUnits))]
+			l := rawLen[src]
+			if l+len(c.Globals) == 0 {
+				continue
+			}
+			hi := r.Range(0, l)
+			if l > 0 && r.Chance(1, 2) {
+				hi = l - 1
+			}
+			lo := 0
+			if hi > 0 && r.Chance(1, 3) {
+				lo = r.Range(0, hi)
+			}
+			c.Ops = append(c.Ops, SOp{Op: "alias", Parent: &src, New: next, Inf: 100 + next, Lo: lo, Hi: hi})
+			rawLen[next] = hi - lo
+			rawUnits = append(rawUnits, next)
 			units = append(units, next)
 			next++
 		default:
@@ -158,6 +188,11 @@ func runScript(c *Case) lib.Result {
 	var oracle []string
 	fail := func(f string, a ...any) { oracle = append(oracle, fmt.Sprintf(f, a...)) }
 
+	type rawSlice struct {
+		back     []callbacks.Handler
+		off, len int
+	}
+	raws := map[int]rawSlice{} // the caller's slice behind a raw / alias unit
 	ctxs := map[int]context.Context{}
 	spec := map[int][]int{}    // the property's reading: inherited ++ designated, fixed at creation
 	hasMgr := map[int]bool{}   // a manager exists (some handler or some global)
@@ -182,8 +217,21 @@ func runScript(c *Case) lib.Result {
 				copy(back[op.Off:], toH(op.Hs))
 				sl := back[op.Off : op.Off+len(op.Hs) : op.Off+len(op.Hs)+op.Spare]
 				ctxs[op.New] = callbacks.InitCallbacks(context.Background(), info(op.Inf), sl...)
+				raws[op.New] = rawSlice{back, op.Off, len(op.Hs)}
 				spec[op.New] = append([]int(nil), op.Hs...)
 				hasMgr[op.New] = len(op.Hs)+len(c.Globals) > 0
+				infOf[op.New] = op.Inf
+				order = append(order, op.New)
+			case "alias":
+				rs, ok := raws[*op.Parent]
+				if !ok || op.Lo > op.Hi || op.Hi > rs.len {
+					panic("harness: bad alias op")
+				}
+				sl := rs.back[rs.off+op.Lo : rs.off+op.Hi] // capacity reaches to the end of the caller's array
+				ctxs[op.New] = callbacks.InitCallbacks(context.Background(), info(op.Inf), sl...)
+				raws[op.New] = rawSlice{rs.back, rs.off + op.Lo, op.Hi - op.Lo}
+				spec[op.New] = append([]int(nil), spec[*op.Parent][op.Lo:op.Hi]...)
+				hasMgr[op.New] = len(spec[op.New])+len(c.Globals) > 0
 				infOf[op.New] = op.Inf
 				order = append(order, op.New)
 			case "append":
@@ -348,7 +396,7 @@ func runScript(c *Case) lib.Result {
 
 	// Gallina term
 	var ops []string
-	nAppend, spare, sib := 0, false, map[int]int{}
+	nAppend, nAlias, spare, sib := 0, 0, false, map[int]int{}
 	for _, op := range c.Ops {
 		switch op.Op {
 		case "raw":
@@ -369,6 +417,9 @@ func runScript(c *Case) lib.Result {
 			}
 		case "reuse":
 			ops = append(ops, fmt.Sprintf("OReuse %d %d %d", *op.Parent, op.New, op.Inf))
+		case "alias":
+			ops = append(ops, fmt.Sprintf("OAlias %d %d %d %d%%nat %d%%nat", *op.Parent, op.New, op.Inf, op.Lo, op.Hi))
+			nAlias++
 		case "on":
 			ops = append(ops, fmt.Sprintf("OOn %d %s", op.U, timingName[op.T]))
 		}
@@ -389,9 +440,22 @@ func runScript(c *Case) lib.Result {
 			maxSib = n
 		}
 	}
-	res.Nontrivial = maxSib >= 2 && spare
+	// the caller's arrays are inspected too: nothing may be written behind the caller's back
+	for _, u := range order {
+		rs, ok := raws[u]
+		if !ok {
+			continue
+		}
+		for i := 0; i < rs.len; i++ {
+			if got := handlerID(rs.back[rs.off+i]); got != spec[u][i] {
+				res.Oracle = strings.TrimPrefix(res.Oracle+" | ", " | ") + fmt.Sprintf("unit %d: element %d of the slice the caller passed was overwritten: handler %d, want %d", u, i, got, spec[u][i])
+				res.Sig = "script-list"
+			}
+		}
+	}
+	res.Nontrivial = (maxSib >= 2 && spare) || nAlias > 0
 	res.Tags = []string{"kind:script", fmt.Sprintf("script-appends:%d", nAppend), fmt.Sprintf("script-globals:%d", len(c.Globals)),
-		fmt.Sprintf("script-siblings:%d", maxSib), fmt.Sprintf("script-spare:%v", spare), "class:ok"}
+		fmt.Sprintf("script-siblings:%d", maxSib), fmt.Sprintf("script-spare:%v", spare), fmt.Sprintf("script-alias:%d", nAlias), "class:ok"}
 	return res
 }
 
